@@ -76,10 +76,19 @@ def cfg_mixed(depth, kinds="all", steps=(2, 5), track=True, rich=False):
     )
 
 
+def cfg_loc(depth, kinds="all"):
+    """explicit locations INCLUDING 0 (falsy) and values different from the current counters, for
+    record_stat and record_epoch, in states whose counters are already non-zero"""
+    return dict(
+        Kinds=tlc.Subst("K_" + kinds), Keys={"a"}, Values={1}, EpVals={0, 7}, StepVals={0, 9}, EpochSteps={0, 9},
+        StopVals={2}, Intervals={1}, Ops={"StartEpisode", "StopEpisode", "RecordStat", "RecordEpoch"}, MaxCalls=depth, TrackLoc=True, EMIT=False,
+    )
+
+
 def cfg_sim(depth):
     """long random behaviours beyond the exhaustive bound"""
     return dict(
-        Kinds=tlc.Subst("K_all"), Keys={"a", "b"}, Values={1, 2}, EpVals={7}, StepVals={9}, EpochSteps=set(range(0, 41)),
+        Kinds=tlc.Subst("K_all"), Keys={"a", "b"}, Values={1, 2}, EpVals={0, 7}, StepVals={0, 9}, EpochSteps=set(range(0, 41)),
         StopVals={1, 2, 5}, Intervals={1, 2, 3, 4, 7}, Ops=set(ALL_OPS), MaxCalls=depth, TrackLoc=True, EMIT=True,
     )
 
@@ -533,6 +542,8 @@ def run(rep):
         _check(rep, cfg_cadence(d_cad2, keys=("a", "b"), **small), f"cadence keys a,b (<= {d_cad2} calls, steps {{0,1,3,4,8,9}}, I {{1,2,4}})", "c20cad2")
         if not quick:
             _check(rep, cfg_cadence(4, keys=("a", "b")), "cadence keys a,b, steps 0-9, I 1-4 (<= 4 calls)", "c20cad2f")
+        d_loc = 3 if quick else 4
+        _check(rep, cfg_loc(d_loc), f"explicit locations incl. 0 with non-zero counters (all members, <= {d_loc} calls)", "c20loc", cover_ops=["RecordStat", "RecordEpochWith"])
         _check(rep, cfg_mixed(d_mix), f"all calls interleaved (all members, <= {d_mix} calls)", "c20mix")
         # equivalence of the implementation's test on the whole bounded domain (initial state only)
         r = tlc.run("Logger", tlc.cfg_text(next="Stop", constants=cfg_cadence(1), invariants=["ImplEquivDomain"]), workers=1, tag="c20dom")
@@ -559,6 +570,7 @@ def run(rep):
             ("cadence", cfg_cadence(gd_cad, "all"), False, ["standard", "orbax"]),
             ("cadence2", cfg_cadence(gd_cad2, "all", keys=("a", "b"), steps=(0, 1, 3, 4, 8, 9), stops=(2,), ivs=(1, 2, 4)), False, []),
             ("mixed", cfg_mixed(gd_mix, rich=not quick), True, ["standard"]),
+            ("loc", cfg_loc(3 if quick else 4), True, ["memory", "standard"]),
         ]
         graphs = {}
         for base, c, track, singles in plans:
@@ -576,6 +588,20 @@ def run(rep):
                     e = Gx.out[sorted(Gx.out)[len(Gx.out) * 2 // 3]][-1]
                     rep.sample({"graph": name, "op": e[0], "args": e[1], "exp": e[2], "post": Gx.state[e[3]]})
             lap("replay")
+
+        # vacuity guard: explicit (falsy) 0 locations must occur where the counters are non-zero
+        Gl = graphs["loc/all"][0]
+        zero_ep = zero_step = other = 0
+        for k, es in Gl.out.items():
+            m0 = Gl.state[k]["m"][0]
+            for op, args, exp, k2 in es:
+                if op in ("RecordStat", "RecordEpoch"):
+                    zero_ep += args["ep"] == 0 and m0["nEp"] > 0
+                    zero_step += args["step"] == 0 and m0["nSteps"] > 0
+                    other += args["ep"] not in (-1, m0["nEp"]) and args["step"] not in (-1, m0["nSteps"])
+        rep.extra["explicit_zero_location_transitions"] = {"episode=0,nEp>0": zero_ep, "step=0,nSteps>0": zero_step, "both explicit and different from counters": other}
+        if not (zero_ep and zero_step and other):
+            raise tlc.MachineryError("loc graph does not exercise explicit 0 locations with non-zero counters")
 
         # ---- 4. binding canary: a corrupted expected checkpoint version must be noticed -------
         G, c, kn, wrap, track = graphs["cadence/orbax"]
@@ -633,7 +659,7 @@ def run(rep):
 
     rep.rule = (
         "TLC enumerates the complete reachable call graph of Logger.tla per configuration (stats: keys {a,b}, values 1-2, explicit/defaulted episode and step; "
-        "cadence: explicit steps 0-9 or the step counter, non-decreasing per key, intervals 1-4 with redefinition; mixed: all calls) up to the call bound, plus simulated long behaviours; "
+        "cadence: explicit steps 0-9 or the step counter, non-decreasing per key, intervals 1-4 with redefinition; mixed: all calls; loc: explicit episode/step in {0,7}/{0,9} incl. the falsy 0 while the counters are non-zero, for record_stat and record_epoch) up to the call bound, plus simulated long behaviours; "
         "every transition (distinct pre-state, call, arguments) is replayed once into each real class / LoggerList; "
         "non-trivial = the call stores a statistic or writes a checkpoint from a non-initial state"
     )
